@@ -144,6 +144,7 @@ def explore(cond: Cond, seed: int) -> dict:
     deadline = t_start + cond.timeout
     exhausted = False
     opt0 = (bitstring.options.lsb0, bitstring.options.bytealigned, bitstring.options.mxfp_overflow, bitstring.options.no_color)
+    pkg_snap = None
     try:
         while True:
             now = process_time()
@@ -152,6 +153,10 @@ def explore(cond: Cond, seed: int) -> dict:
                 break
             res['paths'] += 1
             _reset_model_caches()
+            if pkg_snap is None:
+                pkg_snap = snapshot_package_state()
+            else:
+                restore_package_state(pkg_snap)
             space = StateSpace(execution_deadline=now + cond.path_timeout,
                                model_check_timeout=cond.path_timeout / 2, search_root=root)
             K = None
@@ -246,6 +251,78 @@ def run_direct(cond: Cond) -> dict:
     res['wall_s'] = round(time.time() - w0, 2)
     res.setdefault('solver', {})
     return res
+
+
+_SIMPLE = (dict, list, set, str, int, float, bool, tuple, frozenset, bytes, type(None))
+
+
+def snapshot_package_state(prefix='bitstring'):
+    """Process-global state of the package under test (module globals, class attributes, attributes of module-level singleton objects).
+    Paths of one condition run one after the other in one process; without a reset, state left behind by one path (a class-level cache, a registry, a
+    rebinding of a class attribute) would leak into the next and the exploration of call histories would depend on the order of the paths."""
+    import types
+    snap = []
+    seen = set()
+    for mname, mod in list(sys.modules.items()):
+        if mod is None or not (mname == prefix or mname.startswith(prefix + '.')):
+            continue
+        for gname, val in list(vars(mod).items()):
+            if gname.startswith('__'):
+                continue
+            if isinstance(val, (dict, list, set)) and id(val) not in seen:
+                seen.add(id(val))
+                snap.append(('container', val, type(val)(val)))
+            elif isinstance(val, type) and getattr(val, '__module__', '').startswith(prefix) and id(val) not in seen:
+                seen.add(id(val))
+                attrs = {}
+                for a, v in list(vars(val).items()):
+                    if a.startswith('__') or isinstance(v, (types.FunctionType, classmethod, staticmethod, property, types.MemberDescriptorType, types.GetSetDescriptorType)) or callable(v):
+                        continue
+                    if isinstance(v, _SIMPLE):
+                        attrs[a] = (v, type(v)(v) if isinstance(v, (dict, list, set)) else v)
+                snap.append(('class', val, attrs))
+            elif (not isinstance(val, (type, types.ModuleType, types.FunctionType))) and type(val).__module__.startswith(prefix) and hasattr(val, '__dict__') and id(val) not in seen:
+                seen.add(id(val))
+                snap.append(('object', val, {a: (v, type(v)(v) if isinstance(v, (dict, list, set)) else v) for a, v in vars(val).items() if isinstance(v, _SIMPLE)}))
+    return snap
+
+
+def restore_package_state(snap):
+    import types
+    for kind, obj, saved in snap:
+        if kind == 'container':
+            if obj != saved:
+                obj.clear()
+                (obj.extend if isinstance(obj, list) else obj.update)(saved)
+        elif kind == 'class':
+            for a, v in list(vars(obj).items()):
+                if a.startswith('__') or a in saved:
+                    continue
+                if isinstance(v, _SIMPLE):
+                    try:
+                        delattr(obj, a)           # a data attribute that did not exist when the condition started
+                    except (AttributeError, TypeError):
+                        pass
+            for a, (orig, copy_) in saved.items():
+                if isinstance(orig, (dict, list, set)):
+                    if orig != copy_:
+                        orig.clear()
+                        (orig.extend if isinstance(orig, list) else orig.update)(copy_)
+                    if vars(obj).get(a) is not orig:
+                        setattr(obj, a, orig)
+                elif vars(obj).get(a, _SIMPLE) is not orig and vars(obj).get(a, _SIMPLE) != orig:
+                    setattr(obj, a, orig)
+        else:
+            d = vars(obj)
+            for a, (orig, copy_) in saved.items():
+                if isinstance(orig, (dict, list, set)):
+                    if orig != copy_:
+                        orig.clear()
+                        (orig.extend if isinstance(orig, list) else orig.update)(copy_)
+                    if d.get(a) is not orig:
+                        d[a] = orig
+                elif d.get(a, _SIMPLE) != orig or type(d.get(a)) is not type(orig):
+                    d[a] = orig
 
 
 def _reset_model_caches():
